@@ -618,6 +618,93 @@ fn fault_sweep(m: &M, root: &str, tag: &str, path: &[Op], wname: &str) -> (u64, 
 	(cases, problems)
 }
 
+/// node-event enumeration on one state: for every k, a block (carrying whatever waits in the pool) arrives
+/// right before the k-th node call of a refresh (k = number of calls: right after the refresh); then one
+/// more complete refresh; the chain-truth oracle must hold after that second refresh. A refresh reads the
+/// node in several separately committed phases, so the first refresh may have seen the block in some
+/// phases only; what the statement requires is that refreshing converges. Returns (cases, problems)
+fn event_sweep(m: &M, root: &str, tag: &str, path: &[Op], wname: &str) -> (u64, Vec<(String, String)>) {
+	let dir = format!("{}/{}-event", root, tag);
+	if run_path(m, &dir, path).is_err() {
+		return (0, vec![]);
+	}
+	let snap = Snapshot::capture(&dir);
+	let n_calls = {
+		let w = World::open(&dir);
+		w.w("A").set_account(&active_label(&w)).unwrap();
+		w.node.set_fault(FaultPlan::default());
+		let _ = w.w(wname).refresh();
+		let n = w.node.calls_since_plan();
+		drop(w);
+		n
+	};
+	let mut problems = vec![];
+	let mut cases = 0;
+	for k in 0..=n_calls {
+		snap.restore(&dir);
+		let w = World::open(&dir);
+		w.w("A").set_account(&active_label(&w)).unwrap();
+		// the block is built beforehand (reward to the miner wallet M); the hook only hands it to the chain
+		let prev = w.node.head_header();
+		let txs = w.node.take_mempool();
+		let fees = txs.iter().map(|t| t.fee()).sum();
+		let bf = crate::libwallet::BlockFees { fees, key_id: None, height: prev.height + 1 };
+		let mw = w.w("M");
+		let cb = match mw.with(|b| crate::libwallet::api_impl::foreign::build_coinbase(b, mw.mask(), &bf, false)) {
+			Ok(c) => c,
+			Err(_) => {
+				drop(w);
+				continue;
+			}
+		};
+		let block = w.node.build_block(&prev, &txs, (cb.output, cb.kernel));
+		let fired = std::sync::Arc::new(std::sync::atomic::AtomicBool::new(false));
+		{
+			let node = w.node.clone();
+			let fired = fired.clone();
+			let block = block.clone();
+			w.node.set_fault(FaultPlan::default());
+			*w.node.yield_hook.lock().unwrap() = Some(std::sync::Arc::new(move |_name: &'static str| {
+				if node.calls_since_plan() == k && !fired.swap(true, std::sync::atomic::Ordering::SeqCst) {
+					let _ = node.process(block.clone());
+				}
+			}));
+		}
+		let r = catch(|| w.w(wname).refresh());
+		*w.node.yield_hook.lock().unwrap() = None;
+		if !fired.swap(true, std::sync::atomic::Ordering::SeqCst) {
+			let _ = w.node.process(block.clone());
+		}
+		cases += 1;
+		if let Err(p) = r {
+			let site = take_last_panic().map(|x| panic_site(&x.1)).unwrap_or_default();
+			problems.push((format!("node-event/refresh-panics/{}", site), format!("refresh with a block arriving before node call #{} panicked: {}", k, p)));
+			drop(w);
+			continue;
+		}
+		match catch(|| w.w(wname).refresh()) {
+			Ok(Ok(true)) => {
+				let mut p = vec![];
+				check_books(&w, wname, wname, &mut p);
+				for (key, v) in p {
+					problems.push((format!("node-event/after-next-refresh/{}", key), format!("a block arrived before node call #{} of a refresh; after one more complete refresh: {}", k, v)));
+				}
+			}
+			other => {
+				let shown = match other {
+					Ok(Ok(b)) => format!("Ok({})", b),
+					Ok(Err(e)) => format!("Err({})", e),
+					Err(p) => format!("panic: {}", p),
+				};
+				problems.push(("node-event/next-refresh-fails".to_owned(), format!("the refresh after a block arrived before node call #{} returned {}", k, shown)));
+			}
+		}
+		drop(w);
+	}
+	let _ = std::fs::remove_dir_all(&dir);
+	(cases, problems)
+}
+
 pub fn replay(payload: &Value) -> i32 {
 	std::env::set_var("GWV_SHOW_PANICS", "1");
 	let path: Vec<Op> = serde_json::from_value(payload["path"].clone()).unwrap();
@@ -625,6 +712,11 @@ pub fn replay(payload: &Value) -> i32 {
 	let base = if kind.contains("base1") { 1 } else { 0 };
 	let m = M { base, reduced: false };
 	let root = scratch_root();
+	if kind.starts_with("event") {
+		let (n, p) = event_sweep(&m, &root, "c04-replay", &path, payload["wallet"].as_str().unwrap_or("A"));
+		println!("{} node-event cases on the state after {:?}: {:?}", n, path, p);
+		return if p.is_empty() { 0 } else { 1 };
+	}
 	if kind.starts_with("fault") {
 		let (n, p) = fault_sweep(&m, &root, "c04-replay", &path, payload["wallet"].as_str().unwrap_or("A"));
 		println!("fault sweep after {:?}: {} cases, problems {:?}", path, n, p);
@@ -666,6 +758,7 @@ pub fn run(_args: &[String]) -> i32 {
 	let mut exhaustive = true;
 	let mut samples = vec![];
 	let mut fault_cases = 0u64;
+	let mut event_cases = 0u64;
 	for base in 0..2 {
 		let m = M { base, reduced: false };
 		let caps = Caps {
@@ -754,6 +847,13 @@ pub fn run(_args: &[String]) -> i32 {
 		}
 		let jobs: Vec<(usize, Vec<Op>, &str)> = paths.iter().enumerate().flat_map(|(i, p)| vec![(i * 2, p.clone(), "A"), (i * 2 + 1, p.clone(), "B")]).collect();
 		let res = par_map(&jobs, workers(), |_, (i, p, wn)| fault_sweep(&m, &root, &format!("c04-{}-f{}", tag, i), p, wn));
+		let eres = par_map(&jobs, workers(), |_, (i, p, wn)| event_sweep(&m, &root, &format!("c04-{}-e{}", tag, i), p, wn));
+		for ((_, p, wn), (n, problems)) in jobs.iter().zip(eres.into_iter()) {
+			event_cases += n;
+			for (k, v) in problems {
+				rep.add_finding(Finding { key: format!("C04/{}", k), what: format!("{} — wallet {} in the state after {:?} (base {})", v, wn, p, base), replay: json!({"kind": format!("event-base{}", base), "path": p, "wallet": wn}) });
+			}
+		}
 		for ((_, p, wn), (n, problems)) in jobs.iter().zip(res.into_iter()) {
 			fault_cases += n;
 			for (k, v) in problems {
@@ -768,6 +868,7 @@ pub fn run(_args: &[String]) -> i32 {
 	rep.cov("distinct_nontrivial", json!(states));
 	rep.cov("successful_refreshes_checked", json!(refreshes_ok));
 	rep.cov("node_fault_cases", json!(fault_cases));
+	rep.cov("node_event_cases", json!(event_cases));
 	rep.cov("rule", json!("BFS over operation histories from two base states on a real chain; every successful refresh is followed by the chain-truth oracle; distinct_nontrivial = distinct reachable world states; plus one case per (state, failing node call index, transient|persistent outage)"));
 	rep.cov("exhaustive", json!(exhaustive));
 	rep.cov("samples", json!(samples));
